@@ -169,6 +169,13 @@ mod scalar {
     use ::glam_scalar as glam;
     include!("suite.rs");
 }
+/// scalar-math with `glam-assert`: the second pass for the scalar copies (a quarter of the volume)
+#[cfg(not(feature = "core"))]
+mod scalar_asserting {
+    pub const VARIANT: &str = "scalar+glam-assert";
+    use ::glam_scalar_assert as glam;
+    include!("suite.rs");
+}
 #[cfg(feature = "core")]
 mod core_simd {
     pub const VARIANT: &str = "core";
@@ -184,6 +191,7 @@ fn main() {
         subs.extend(simd::subs(&args));
         subs.extend(scalar::subs(&args));
         subs.extend(asserting::subs(&args));
+        subs.extend(scalar_asserting::subs(&args).into_iter().map(|s| s.with_div(4)));
     }
     #[cfg(feature = "core")]
     {
